@@ -500,6 +500,22 @@ class Unit:
         self.integrate_calls = 0
         self.ebadf = 0
         self.edit_probes = 0
+        self.routes_done, self.route_replies, self.shots_posted, self.shots_ok = {}, {}, 0, 0
+        if jp.get("shots"):
+            # a heartbeat that takes screenshots (reb_simulation_output_screenshot releases and retakes the mutex inside it)
+            at = set(jp["shots"])
+            cnt = [0]
+            me = self
+
+            def hb(simp):
+                cnt[0] += 1
+                if cnt[0] in at and me.sim._server_data:
+                    fn = os.path.join(me.out, "shot%03d.png" % cnt[0])
+                    me.sim.output_screenshot(fn)
+                    if os.path.exists(fn) and open(fn, "rb").read() == SHOT_PNG:
+                        me.shots_ok += 1
+            self.sim.heartbeat = hb
+            self._hb = hb
         if shim:
             shim.c19_register(ctypes.addressof(self.sim) + offs["server_data"], offs["mutex"], offs["need_copy"])
 
@@ -604,6 +620,44 @@ class Unit:
                 between(k, "after")
         self.done.set()
 
+    def routes_client(self, routes):
+        """every other route of the server (static pages, unknown URIs and keys, unsupported method, unexpected screenshot)"""
+        done = {}
+        i = 0
+        while not self.stop.is_set() and (i < len(routes) or not self.done.is_set()) and i < 4 * len(routes):
+            if self.port is None or not self.ready.is_set() or self.down.is_set():
+                time.sleep(0.001)
+                continue
+            name, method, path, body = routes[i % len(routes)]
+            try:
+                raw = http_req(self.port, method, path, body.encode("latin1") if body is not None else None)
+                done[name] = done.get(name, 0) + 1
+                self.route_replies[name] = raw[:40].decode("latin1")
+            except OSError as e:
+                if getattr(e, "errno", None) == 9:
+                    self.ebadf += 1
+                elif not (self.down.is_set() or not self.ready.is_set()):
+                    self.errors.append("route %s: %r" % (name, e))
+                    break
+            i += 1
+            time.sleep(self.crng.uniform(0, 3.0) / 1000.0)
+        self.routes_done = done
+
+    def browser(self):
+        """plays the web page: whenever asked (status SCREENSHOT) it POSTs a data URL to /screenshot"""
+        import base64
+        body = ("data:image/png;base64," + base64.b64encode(SHOT_PNG).decode()).encode() + b"\0"
+        while not self.stop.is_set() and not self.done.is_set():
+            if self.port is not None and self.sim._status == -4:        # REB_STATUS_SCREENSHOT
+                try:
+                    http_req(self.port, "POST", "/screenshot", body)
+                    self.shots_posted += 1
+                except OSError as e:
+                    if getattr(e, "errno", None) != 9:
+                        self.errors.append("browser: " + repr(e))
+                        break
+            time.sleep(0.0005)
+
     def keyboard(self, plan):
         """pause / single steps / resume (and quit) through the server while the client keeps fetching"""
         sim = self.sim
@@ -659,10 +713,33 @@ class Unit:
                 f.write(b)
             flags.append(any(t0 <= e and s_ <= t1 + 0.002 for s_, e in self.stops))
         res.update(ok=True, nbodies=len(self.bodies), errors=self.errors, steps_done=int(sim.steps_done), t=sim.t,
-                   near_stop=flags, edit_probes=self.edit_probes, integrate_calls=self.integrate_calls, client_ebadf=self.ebadf, stop_cycles=len(self.stops),
+                   near_stop=flags, edit_probes=self.edit_probes, routes_done=self.routes_done, route_replies=self.route_replies,
+                   shots_posted=self.shots_posted, shots_ok=self.shots_ok, integrate_calls=self.integrate_calls, client_ebadf=self.ebadf, stop_cycles=len(self.stops),
                    heartbeat_calls=(sim._c19_hbcount[0] if hasattr(sim, "_c19_hbcount") else None),
                    bodies_during_integration=sum(1 for x in self.bodies if not x[0]))
         json.dump(res, open(os.path.join(out, "result.json"), "w"))
+
+
+def http_req(port, method, path, body=None, timeout=10):
+    """raw HTTP request; returns the raw response bytes (possibly empty: some routes of server.c answer nothing)"""
+    s_ = socket.create_connection(("127.0.0.1", port), timeout=timeout)
+    try:
+        head = "%s %s HTTP/1.0\r\nHost: localhost\r\n" % (method, path)
+        if body is not None:
+            head += "Content-Length: %d\r\n" % len(body)
+        s_.sendall(head.encode() + b"\r\n" + (body or b""))
+        chunks = []
+        while True:
+            ch = s_.recv(1 << 16)
+            if not ch:
+                break
+            chunks.append(ch)
+    finally:
+        s_.close()
+    return b"".join(chunks)
+
+
+SHOT_PNG = bytes(range(7, 71))          # what the "browser" sends as a screenshot (any bytes; the server base64-decodes them)
 
 
 def worker(argv):
@@ -701,6 +778,83 @@ def worker(argv):
         shim.c19_count.restype = ctypes.c_long
         shim.c19_len.restype = ctypes.c_long
         shim.c19_delays(job["delay_seed"], job["delay_prob"], job["delay_max_us"])
+    entry = {"reb_simulation_init", "reb_simulation_integrate"}
+    if job.get("smokes"):
+        # (a) the global interrupt flag (rebound.c:780-797): one SIGINT ends every running integration, the next integrate() resets it
+        import signal
+        sm = {}
+        try:
+            sims = [make_sim(rebound, dict(integ=i_, N=30, dt=0.01, seed=5 + n_, tmax=[1e9])) for n_, i_ in enumerate(("leapfrog", "whfast"))]
+            rets = [None, None]
+
+            def run_(j):
+                try:
+                    sims[j].integrate(1e9)
+                    rets[j] = "returned"
+                except KeyboardInterrupt:
+                    rets[j] = "KeyboardInterrupt"
+                except BaseException as e:
+                    rets[j] = repr(e)
+            ths_ = [threading.Thread(target=run_, args=(j,)) for j in range(2)]
+            for t_ in ths_:
+                t_.start()
+            dl = time.time() + 10
+            while time.time() < dl and not all(x.steps_done > 50 for x in sims):
+                time.sleep(0.002)
+            os.kill(os.getpid(), signal.SIGINT)
+            for t_ in ths_:
+                t_.join(10)
+            sm["returns"] = rets
+            sm["status"] = [int(x._status) for x in sims]
+            t_before = sims[0].t
+            sims[0].integrate(t_before + 0.5)                 # the flag is reset by the next call
+            sm["resumed"] = bool(sims[0].t >= t_before + 0.5 - 1e-9)
+            sm["ok"] = all(r_ == "KeyboardInterrupt" for r_ in rets) and sm["status"] == [6, 6] and sm["resumed"]
+        except BaseException as e:
+            sm["ok"] = False
+            sm["error"] = repr(e)
+        res["sigint_smoke"] = sm
+        entry.add("reb_sigint")
+        # (b) freeing a simulation whose server is running (reb_simulation_free_pointers -> reb_simulation_stop_server)
+        fs = {}
+        try:
+            s2 = make_sim(rebound, dict(integ="leapfrog", N=5, dt=0.01, seed=9, tmax=[0.1]))
+            p2 = free_port()
+            s2.start_server(port=p2)
+            dl = time.time() + 10
+            while s2._server_data and s2._server_data.contents.ready == 0 and time.time() < dl:
+                time.sleep(0.005)
+            b2 = http_get(p2, "/simulation")
+            # the plain C entry points: a copy must not inherit the server (server_data of the copy is NULL)
+            clib = rebound.clibrebound
+            clib.reb_simulation_copy.restype = ctypes.c_void_p
+            clib.reb_simulation_create.restype = ctypes.c_void_p
+            clib.reb_simulation_free.argtypes = [ctypes.c_void_p]
+            cpy = clib.reb_simulation_copy(ctypes.byref(s2))
+            fs["copy_server_data_is_null"] = ctypes.c_void_p.from_address(cpy + job["offs"]["server_data"]).value in (None, 0)
+            clib.reb_simulation_free(cpy)
+            fresh = clib.reb_simulation_create()
+            fs["fresh_server_data_is_null"] = ctypes.c_void_p.from_address(fresh + job["offs"]["server_data"]).value in (None, 0)
+            clib.reb_simulation_free(fresh)
+            cp2 = s2.copy()
+            fs["python_copy_has_no_server"] = not bool(cp2._server_data)
+            del cp2
+            del s2
+            import gc
+            gc.collect()
+            try:
+                http_get(p2, "/simulation", timeout=2)
+                fs["ok"] = False
+                fs["error"] = "the server still answers after the simulation was freed"
+            except OSError:
+                fs["ok"] = len(b2) > 64 and fs["copy_server_data_is_null"] and fs["fresh_server_data_is_null"] and fs["python_copy_has_no_server"]
+        except BaseException as e:
+            fs["ok"] = False
+            fs["error"] = repr(e)
+        res["free_smoke"] = fs
+        entry |= {"reb_simulation_free_pointers", "reb_simulation_free", "reb_simulation_copy", "reb_simulation_copy_with_messages",
+                  "reb_simulation_create"}
+        progress("smokes done", sm.get("ok"), fs.get("ok"))
     units = [Unit(rebound, sp, dict(job, delay_seed=job["delay_seed"] + 17 * i), out if not multi else os.path.join(out, "u%d" % i),
                   shim, job["offs"]) for i, sp in enumerate(specs)]
     progress("simulations built")
@@ -737,6 +891,14 @@ def worker(argv):
     sim, sp = u.sim, u.sp
     th = threading.Thread(target=u.client) if (use_server and job["max_bodies"] > 0) else None
     kb = None
+    extra = []
+    if use_server and job.get("routes"):
+        extra.append(threading.Thread(target=u.routes_client, args=(job["routes"],)))
+    if use_server and job.get("shots"):
+        extra.append(threading.Thread(target=u.browser))
+    for t_ in extra:
+        t_.daemon = True
+        t_.start()
     if not use_server:
         u.integrate_all()
     elif job.get("restart"):
@@ -810,13 +972,15 @@ def worker(argv):
         th.join(30)
         if th.is_alive():
             fail("client thread did not finish")
+    for t_ in extra:
+        t_.join(15)
     progress("client joined")
     if shim:
         shim.c19_stop()
         shim.c19_dump(os.path.join(out, "trace.txt").encode())
         res["counts"] = {n: shim.c19_count(i) for i, n in enumerate(
             ["iEnter", "iChkBegin", "iChkSync", "iChkEnd1", "iChkEnd0", "iSpin", "iLock", "iStepBegin", "iStepEnd",
-             "iUnlock", "iEpiSync", "iLeave", "sLock", "sSerBegin", "sSerEnd", "sUnlock", "xStart", "xStop", "sSent"])}
+             "iUnlock", "iEpiSync", "iLeave", "sLock", "sSerBegin", "sSerEnd", "sUnlock", "xStart", "xStop", "sSent", "sStatic", "iShotUnlock", "iShotLock"])}
         res["late_spins"] = shim.c19_count(-1)
         res["foreign_ser"] = shim.c19_count(-2)
         res["double_close"] = shim.c19_count(-3)
@@ -825,6 +989,11 @@ def worker(argv):
         sim.stop_server()
     progress("writing results")
     res["wall"] = wall
+    if use_server:
+        entry |= {"reb_simulation_start_server", "reb_simulation_stop_server"}
+    if u.shots_ok or u.shots_posted:
+        entry.add("reb_simulation_output_screenshot")
+    res["entry"] = sorted(entry)
     u.finish(res)
     return 0
 
@@ -851,7 +1020,7 @@ def check_interposable(d):
     """the calls the shim intercepts must go through the PLT of the library (else traces would be blind)"""
     p = subprocess.run(["objdump", "-dr", "--no-show-raw-insn", os.path.join(d, "src", "rebound.o")],
                        capture_output=True, text=True)
-    need = {"reb_check_exit", "reb_simulation_step", "reb_simulation_synchronize", "pthread_mutex_lock",
+    need = {"reb_check_exit", "reb_simulation_step", "reb_simulation_synchronize", "reb_run_heartbeat", "pthread_mutex_lock",
             "pthread_mutex_unlock", "usleep"}
     q = subprocess.run(["objdump", "-dr", "--no-show-raw-insn", os.path.join(d, "src", "server.o")],
                        capture_output=True, text=True)
@@ -1187,7 +1356,7 @@ def analyse_bodies(c, rebound, fmt, sp, res, tmpdir, stats, tag, racy=None):
                         % (dd_[:6], ": it is the state BEFORE the edit" if stale else "", sp["integ"]),
                         dict(rep, probe=os.path.basename(fb), edits=sp.get("edits"), fields=dd_[:8]))
         elif not Fmt.diff(A_, B_):
-            c.violation("edit-probe-vacuous", "the user edit changed nothing in the serialisation (%s)" % sp["integ"], dict(rep, edits=sp.get("edits")))
+            stats["edit_probes_vacuous"] = stats.get("edit_probes_vacuous", 0) + 1      # the random value equals the current one
     # window boundaries: steps_done values at which an unlocked adjustment of the integrator can be observed
     window = set()
     for e in ends:
@@ -1302,7 +1471,7 @@ def analyse_bodies(c, rebound, fmt, sp, res, tmpdir, stats, tag, racy=None):
                 # one the run has after that call: F18a by its signature, whatever a continuation does (for collision/tree
                 # configurations continuing a saved state is not bitwise anyway: C05/C13)
                 explained = True
-        if not explained and exact:
+        if not explained and (exact or pro):
             # the body IS the reference run's boundary serialisation, bit for bit: that continuing a saved state does not
             # reproduce the run is then a defect of save/load (C05), not of the server protocol
             stats["exact_but_save_load_not_continuable(C05)"] += 1
@@ -1426,162 +1595,451 @@ def fold_dims(rng, items, per_item=2):
     return left
 
 
-def scenarios(c):
-    """server scenarios: (tag, spec, job parameters)"""
-    rng = c.rng.fork()
-    S = []
+# ============================================================================ factors and pairwise covering arrays
+S_FACTORS = {
+    "integ": list(INTEGS),
+    "calls": ["one", "several", "bursts"],
+    "life": ["before", "paused", "during", "restart"],                 # when the server is started / stopped
+    "req": ["sim", "sim+kbd", "sim+quit", "sim+routes", "sim+shot"],   # what the clients ask for besides /simulation
+    "edit": ["none", "m", "vx", "dt", "opt"],                          # user edit between integrate() calls (request on both sides)
+    "config": ["plain", "tp0", "tp1", "single", "zmass", "var1", "var2", "megno", "enc", "coll", "tree"],
+    "eft": [1, 0],
+    "safe": [1, 0],
+    "sign": ["+", "-"],
+    "cb": ["none", "hb", "force"],
+    "sa": [0, 1],
+    "opt": ["none", "G", "softening", "units", "specific"],
+}
+P_FACTORS = {
+    "integ": list(INTEGS),
+    "config": ["plain", "tp0", "tp1", "single", "zmass", "var1", "var2", "megno", "enc", "coll", "tree"],
+    "eft": [1, 0],
+    "safe": [1, 0],
+    "sign": ["+", "-"],
+    "sa": [0, 1],
+    "opt": ["none", "G", "softening", "units", "specific"],
+    "cb": ["none", "force"],
+    "rng": ["none", "seeded-draws"],        # per-simulation generator feeds a particle (collisions shuffle with rand_r(&r->rand_seed) too)
+    "edit": ["none", "m", "dt"],            # user edit between the two integrate() calls
+    "mix": ["mixed", "same-type"],          # what runs in the other threads
+}
+_VARK = {"var1": "1st", "var2": "2nd", "megno": "megno"}
+_SPECIFIC = ("whfast", "ias15", "bs", "mercurius", "trace", "janus")
 
-    # N, dt, time span of one integrate() call (about 20 ms of wall time each)
+
+def excluded(f, a, g, b):
+    """reason why the pair (f=a, g=b) cannot be generated (combinations the library rejects, or that make the oracle vacuous)"""
+    v = {f: a, g: b}
+    i, cfg = v.get("integ"), v.get("config")
+    if i is not None and cfg is not None:
+        if cfg in _VARK and _VARK[cfg] not in VAR_OK.get(i, []):
+            return "the integrator rejects these variational particles"
+        if cfg in ("single", "zmass") and i not in ("ias15", "whfast", "leapfrog", "eos", "bs", "saba"):
+            return "role layouts generated for ias15/whfast/leapfrog/eos/bs/saba"
+        if cfg in ("tp0", "tp1") and i not in TESTP_OK:
+            return "N_active < N not supported / not meaningful for this integrator"
+        if cfg == "enc" and i not in ("mercurius", "trace"):
+            return "encounter branch exists only in MERCURIUS/TRACE"
+        if cfg == "coll" and i not in ("ias15", "leapfrog", "mercurius"):
+            return "collision scenario calibrated for ias15/leapfrog/mercurius"
+        if cfg == "tree" and i not in ("ias15", "leapfrog"):
+            return "tree gravity is rejected by the other integrators"
+    if i is not None:
+        if v.get("safe") == 0 and i not in ("whfast", "saba", "eos", "mercurius"):
+            return "no safe_mode option"
+        if v.get("sign") == "-" and i == "trace":
+            return "TRACE with dt<0 (finding F10)"
+        if v.get("req") == "sim+quit" and i not in ("whfast", "leapfrog", "saba", "eos"):
+            return "re-entering integrate() reproduces the run only for fixed-step schemes"
+        if v.get("edit") == "dt" and i in ("ias15", "bs"):
+            return "dt is chosen by the adaptive scheme"
+        if v.get("opt") == "specific" and i not in _SPECIFIC:
+            return "no integrator-specific option in the generator"
+        if v.get("cb") == "force" and i not in ("leapfrog", "ias15", "whfast"):
+            return "Python additional_forces scenario calibrated for leapfrog/ias15/whfast"
+        if v.get("opt") == "units" and i not in ("whfast", "ias15", "leapfrog"):
+            return "units scenario calibrated for whfast/ias15/leapfrog"
+        if v.get("opt") in ("G", "softening") and i in ("sei", "janus", "mercurius", "trace"):
+            return "G / softening not folded onto this integrator"
+    if cfg is not None:
+        if cfg in _VARK and v.get("safe") == 0:
+            return "variational particles need synchronised steps"
+        if cfg in _VARK and v.get("cb") == "force":
+            return "additional forces are not applied to variational particles"
+        if cfg in ("enc", "coll", "tree") and v.get("cb") == "force":
+            return "force scenario uses the plain system"
+        if cfg in ("enc", "coll", "tree") and v.get("opt") in ("units", "G", "softening"):
+            return "encounter / collision systems are calibrated for G=1"
+        if cfg == "tree" and v.get("safe") == 0:
+            return "tree gravity only with integrators that have no safe_mode"
+        if cfg in ("coll", "tree") and v.get("sign") == "-":
+            return "collision system calibrated for dt>0"
+        if cfg in ("coll", "tree") and v.get("rng") == "seeded-draws":
+            return "the extra particle would leave the box / join the collisions"
+        if cfg in ("coll", "tree") and v.get("edit") in ("m", "vx"):
+            return "the edited particle may have been merged away"
+        if cfg in ("coll", "tree", "enc") and v.get("req") == "sim+quit":
+            return "re-entered integrate() on encounter/collision systems is not the reference's call sequence"
+        if cfg in ("tp0", "tp1", "single", "zmass", "var1", "var2", "megno") and v.get("opt") == "units":
+            return "units scenario uses the plain system"
+    life, req = v.get("life"), v.get("req")
+    if life is not None and req is not None and req in ("sim+kbd", "sim+quit", "sim+shot") and life != "before":
+        return "keyboard / screenshot scenarios need the server from the start"
+    if life == "during" and v.get("edit") not in (None, "none"):
+        return "the probe around the edit needs the server to be up at that moment"
+    if req == "sim+quit" and v.get("safe") == 0:
+        return "re-entering integrate() synchronises an unsynchronised scheme: not the reference's trajectory by design"
+    if req == "sim+shot" and v.get("cb") in ("hb", "force"):
+        return "the screenshot scenario installs its own heartbeat"
+    if req == "sim+shot" and v.get("calls") == "bursts":
+        return "screenshot counts are planned per call"
+    if v.get("opt") == "units" and v.get("sign") == "-":
+        return "units scenario calibrated for dt>0"
+    if v.get("sa") == 1 and v.get("req") == "sim+quit":
+        return "archive bookkeeping differs when integrate() is re-entered"
+    return None
+
+
+def all_pairs(factors):
+    tot, exc = [], []
+    names = list(factors)
+    for x, f in enumerate(names):
+        for g in names[x + 1:]:
+            for a in factors[f]:
+                for b in factors[g]:
+                    r = excluded(f, a, g, b)
+                    (exc if r else tot).append((f, a, g, b))
+    return tot, exc
+
+
+def row_pairs(row):
+    names = list(row)
+    return {(f, row[f], g, row[g]) for x, f in enumerate(names) for g in names[x + 1:]}
+
+
+def row_valid(row):
+    names = list(row)
+    return all(excluded(f, row[f], g, row[g]) is None for x, f in enumerate(names) for g in names[x + 1:])
+
+
+def covering_array(factors, seed, ncand=60, triples=None):
+    """greedy all-pairs: repeatedly take, from random valid candidates, the row covering most uncovered pairs"""
+    rng = SplitMix(seed)
+    need, _ = all_pairs(factors)
+    need = set(need)
+    rows = []
+
+    names = list(factors)
+
+    def rand_row(fixed=None):
+        """constraint-guided: factor by factor, a random value compatible with what is already chosen"""
+        for _ in range(30):
+            row = dict(fixed or {})
+            order = [f for f in names if f not in row]
+            rng.shuffle(order)
+            ok = True
+            for f in order:
+                vals = [a for a in factors[f] if all(excluded(f, a, g, b) is None and excluded(g, b, f, a) is None for g, b in row.items())]
+                if not vals:
+                    ok = False
+                    break
+                row[f] = rng.choice(vals)
+            if ok:
+                return {f: row[f] for f in names}
+        return None
+    guard = 0
+    while need and guard < 400:
+        guard += 1
+        best, bestn = None, 0
+        # seed the candidate with one still-uncovered pair so that rare pairs get in
+        pf, pa, pg, pb = sorted(need)[rng.next() % len(need)]
+        for _ in range(ncand):
+            row = rand_row({pf: pa, pg: pb})
+            if row is None or not row_valid(row):
+                continue
+            n = len(row_pairs(row) & need)
+            if n > bestn:
+                best, bestn = row, n
+        if best is None:
+            need.discard((pf, pa, pg, pb))       # no valid row contains it (a hidden 3-way conflict): reported as uncoverable
+            rows.append({"_uncoverable": (pf, pa, pg, pb)})
+            continue
+        need -= row_pairs(best)
+        rows.append(best)
+    if triples:
+        # 3-way for the factors closest to the mechanism
+        f1, f2, f3 = triples
+        have = {(r[f1], r[f2], r[f3]) for r in rows if "_uncoverable" not in r}
+        for a in factors[f1]:
+            for b in factors[f2]:
+                for c_ in factors[f3]:
+                    if (a, b, c_) in have:
+                        continue
+                    if excluded(f1, a, f2, b) or excluded(f1, a, f3, c_) or excluded(f2, b, f3, c_):
+                        continue
+                    row = rand_row({f1: a, f2: b, f3: c_})
+                    if row is not None and row_valid(row):
+                        rows.append(row)
+                        have.add((a, b, c_))
+    return rows
+
+
+def cached_array(name, factors, seed, triples=None):
+    """the arrays are deterministic: keep them in corpus/C19/ keyed by the factor definitions and the exclusion rules"""
+    import inspect
+    key = hashlib.sha1((json.dumps(factors, sort_keys=True) + inspect.getsource(excluded) + inspect.getsource(covering_array)
+                        + repr((seed, triples))).encode()).hexdigest()[:16]
+    fn = os.path.join(ROOT, "corpus", "C19", "array_%s_%s.json" % (name, key))
+    if os.path.exists(fn):
+        try:
+            return json.load(open(fn))
+        except Exception:
+            pass
+    rows = covering_array(factors, seed, triples=triples)
+    rows = [r if "_uncoverable" not in r else {"_uncoverable": list(r["_uncoverable"])} for r in rows]
+    os.makedirs(os.path.dirname(fn), exist_ok=True)
+    tmp = fn + ".%d.tmp" % os.getpid()
+    json.dump(rows, open(tmp, "w"))
+    os.replace(tmp, fn)
+    return rows
+
+
+def build_spec(rng, row, parallel=False):
+    """a covering-array row -> (spec, job parameters)"""
     tab = {"ias15": (40, 0.02, 7.8), "whfast": (160, 0.03, 3.3), "saba": (110, 0.03, 0.96), "eos": (110, 0.02, 3.0),
            "mercurius": (90, 0.03, 1.2), "trace": (70, 0.03, 3.0), "bs": (30, 0.05, 40.0), "janus": (140, 0.01, 0.32),
            "leapfrog": (170, 0.01, 1.5), "sei": (200, 0.01, 1.3)}
-    sizes = {k: v[0] for k, v in tab.items()}
-    dts = {k: v[1] for k, v in tab.items()}
-    std = dict(max_bodies=14, client_sleep_ms=5.0, delay_prob=30, delay_max_us=1200)
-
-    def tm(integ, calls, frac=1.0):
-        N, dt, span = tab[integ]
-        out, t = [], 0.0
-        for k in range(calls):
-            t += dt * (int(span * frac / dt * rng.uniform(0.6, 1.4)) + rng.uniform(0.15, 0.85))
-            out.append(t)
-        return out
-    integs = list(INTEGS)
-    rng.shuffle(integs)
-    nmain = len(integs) if c.thorough else 6
-    # always whfast (default) first: the reference scenario
-    integs.remove("whfast")
-    integs = ["whfast"] + integs
-    plain = []
-    for integ in integs[:nmain]:
-        sp = dict(integ=integ, N=sizes[integ], dt=dts[integ], seed=rng.randint(1, 10 ** 6), tmax=tm(integ, rng.randint(3, 5)),
-                  eft=rng.choice([1, 1, 0]))
-        plain.append(("many-calls", sp, dict(max_bodies=14, client_sleep_ms=6.0, delay_prob=40, delay_max_us=1500, hb=rng.chance(0.3))))
-    # one long call: the middle of the loop, nearly all bodies away from the last-step windows
-    for integ in (["whfast", "leapfrog", "ias15", "saba", "janus", "bs"] if c.thorough else [rng.choice(["leapfrog", "saba", "janus"]), "ias15"]):
-        sp = dict(integ=integ, N=sizes[integ], dt=dts[integ], seed=rng.randint(1, 10 ** 6), tmax=[tab[integ][2] * 4.13])
-        plain.append(("one-long-call", sp, dict(max_bodies=14, client_sleep_ms=4.0, delay_prob=25, delay_max_us=800, hb=rng.chance(0.3))))
-    S += plain
-    # integrate() in short bursts (a few steps per call): nearly every boundary is a last-step boundary (F18a density)
-    for integ in (["whfast", "ias15", "leapfrog", "mercurius"] if c.thorough else [rng.choice(["whfast", "leapfrog"])]):
-        dt = dts[integ]
+    integ = row["integ"]
+    N, dt, span = tab[integ]
+    cfg = row["config"]
+    sp = dict(integ=integ, seed=rng.randint(1, 10 ** 6), eft=row["eft"], safe=row["safe"])
+    if parallel:
+        N = {"ias15": 8, "whfast": 40, "saba": 30, "eos": 30, "mercurius": 25, "trace": 20, "bs": 5, "janus": 30, "leapfrog": 40, "sei": 300}[integ] + rng.randint(0, 6)
+        span = dt * rng.randint(20, 60)
+    else:
+        N = max(6, N // 2)
+    if cfg in _VARK:
+        sp["var"] = _VARK[cfg]
+        N = min(N, {"ias15": 20, "whfast": 60, "bs": 12, "leapfrog": 60, "eos": 50}.get(integ, 20)) if not parallel else N
+        if rng.chance(0.3) and integ in TESTP_OK:
+            sp["testp"], sp["tpt"] = rng.randint(1, 2), rng.choice([0, 1])
+    elif cfg in ("tp0", "tp1"):
+        sp["testp"], sp["tpt"] = rng.randint(1, 3), 0 if cfg == "tp0" else 1
+    elif cfg == "single":
+        sp["role"], sp["tpt"] = "single-active", rng.choice([0, 1])
+    elif cfg == "zmass":
+        sp["role"] = "zero-mass-active"
+    elif cfg == "enc":
+        sp["enc"] = 1
+        N, dt = 7 + rng.randint(0, 2), 0.03
+        sp["testp"], sp["tpt"] = 2, 0
+        span = 0.03 * (900 if not parallel else 150)
+    elif cfg in ("coll", "tree"):
+        sp["coll"] = "direct" if cfg == "coll" else rng.choice(["tree", "tree-gravity"])
+        N, dt = 40 + rng.randint(0, 20), 0.01
+        span = 0.01 * (120 if not parallel else 100)
+    if row.get("cb") == "force":
+        sp["force"] = 1
+        N = min(N, 9)
+    opt = row.get("opt", "none")
+    o = {}
+    if opt == "G":
+        o["G"] = rng.choice([0.7, 1.3])
+    elif opt == "softening":
+        o["softening"] = rng.choice([1e-3, 1e-2])
+    elif opt == "units":
+        sp["units"] = 1
+        dt, span = dt / 6.283, span / 6.283
+    elif opt == "specific":
+        if integ == "whfast":
+            k = rng.choice(["coordinates", "kernel", "corrector", "keep"])
+            if k == "coordinates":
+                o["coordinates"] = rng.choice(["democraticheliocentric", "whds", "barycentric"])
+            elif k == "kernel" and not sp.get("var"):
+                o["kernel"] = rng.choice(["modifiedkick", "composition", "lazy"])
+            elif k == "keep" and row["safe"] == 0:
+                o["keep_unsynchronized"] = 1
+            else:
+                o["corrector"] = rng.choice([3, 5, 7, 11, 17])
+        elif integ == "ias15":
+            o.update(epsilon=rng.choice([1e-7, 1e-10]), adaptive_mode=rng.choice([0, 1, 2]), min_dt=1e-4)
+        elif integ == "bs":
+            o.update(eps=rng.choice([1e-6, 1e-10]), max_dt=0.4)
+        elif integ in ("mercurius", "trace"):
+            o["r_crit_hill"] = rng.choice([2.0, 4.0])
+        elif integ == "janus":
+            o.update(scale_pos=1e-16, scale_vel=1e-15)
+    if o:
+        sp["opt"] = o
+    if sp.get("var") and "coordinates" in o:
+        del o["coordinates"]            # WHFast variational equations exist only in Jacobi coordinates
+    sp["N"], sp["dt"] = N, dt
+    # call pattern
+    if parallel:
+        n1, n2 = rng.randint(20, 60), rng.randint(20, 60)
+        k_ = 3 if sp.get("enc") else (2 if sp.get("coll") else 1)
+        sp["tmax"] = [dt * (n1 * k_ + 0.3), dt * ((n1 + n2) * k_ + 0.7)]
+    else:
+        calls = row["calls"]
         t, tms = 0.0, []
-        for k in range(rng.randint(25, 40)):
-            t += dt * (rng.randint(2, 5) + rng.uniform(0.1, 0.9)) if integ != "ias15" else rng.uniform(0.3, 0.9)
-            tms.append(t)
-        sp = dict(integ=integ, N=sizes[integ], dt=dt, seed=rng.randint(1, 10 ** 6), tmax=tms)
-        S.append(("bursts", sp, dict(max_bodies=16, client_sleep_ms=2.0, delay_prob=30, delay_max_us=800, hb=True)))
-    # unsynchronised WHFast, larger N: reb_check_exit / epilogue synchronise outside the lock (F18 torn read)
+        if calls == "one":
+            tms = [span * 3.1]
+        elif calls == "several":
+            for k in range(rng.randint(3, 5)):
+                t += dt * (int(span / dt * rng.uniform(0.6, 1.4)) + rng.uniform(0.15, 0.85))
+                tms.append(t)
+        else:
+            for k in range(rng.randint(20, 32)):
+                t += (dt * (rng.randint(2, 5) + rng.uniform(0.1, 0.9))) if integ not in ("ias15", "bs") else span * rng.uniform(0.03, 0.09)
+                tms.append(t)
+        sp["tmax"] = tms
+    if row["sign"] == "-":
+        sp["dt"] = -abs(sp["dt"])
+        sp["tmax"] = [-abs(t) for t in sp["tmax"]]
+    if row.get("sa"):
+        sp["sa"] = rng.randint(7, 23)
+    # user edits
+    ed = row.get("edit", "none")
+    if ed != "none":
+        ncalls = len(sp["tmax"])
+        ks = list(range(ncalls if not parallel else 1))
+        if not parallel and row.get("life") == "paused":
+            ks = [-1] + ks
+        ks = ks[:6]
+        edits = []
+        for k in ks:
+            kind = ed
+            if kind == "opt":
+                kind = "corrector" if (integ == "whfast" and not sp.get("opt", {}).get("coordinates") and not sp.get("opt", {}).get("kernel")) else ("epsilon" if integ == "ias15" else "softening")
+            if kind == "dt" and k == -1:
+                kind = "m"
+            val = {"m": rng.uniform(1e-6, 5e-5), "vx": rng.uniform(-0.2, 0.2), "dt": sp["dt"] * rng.uniform(0.7, 1.3),
+                   "softening": rng.uniform(1e-4, 1e-2), "corrector": rng.choice([3, 5, 7]), "epsilon": rng.choice([1e-8, 1e-10])}[kind]
+            edits.append([k, kind, rng.randint(1, min(3, max(1, sp["N"] - sp.get("testp", 0) - 1))), val])
+        sp["edits"] = edits
+    jp = dict(max_bodies=12, client_sleep_ms=5.0, delay_prob=30, delay_max_us=1200)
+    if parallel:
+        sp["rngp"] = 1 if row.get("rng") == "seeded-draws" else 0
+        return sp, jp
+    if row.get("cb") == "hb":
+        jp["hb"] = True
+    life, req = row["life"], row["req"]
+    if life == "paused":
+        jp.update(start="paused", start_delay_ms=rng.uniform(3, 20), linger_ms=5)
+    elif life == "during":
+        jp.update(start="during", start_delay_ms=rng.uniform(2, 40), linger_ms=5)
+    elif life == "restart":
+        jp.update(restart=True, client_sleep_ms=1.0, max_bodies=16)
+    if req == "sim+kbd":
+        jp["keyboard"] = {"rounds": 3}
+    elif req == "sim+quit":
+        jp["keyboard"] = {"rounds": 3, "quit": True}
+    elif req == "sim+routes":
+        jp["routes"] = True          # filled in with the routes extracted from server.c
+    elif req == "sim+shot":
+        jp["shots"] = sorted({rng.randint(3, 25) for _ in range(3)})
+    sp["row"] = {k: v for k, v in row.items()}
+    return sp, jp
+
+
+def extract_entry_points(src):
+    """DLLEXPORT functions (rebound.h) whose bodies — or a static function they call — touch server_data / the interrupt flag /
+    start or stop the server"""
+    hdr = open(os.path.join(src, "rebound.h")).read()
+    exported = set(re.findall(r"DLLEXPORT[^;(]*?\b(reb_\w+)\s*\(", hdr))
+    bodies = {}
+    for f in ("rebound.c", "output.c", "server.c"):
+        txt = open(os.path.join(src, f)).read()
+        for m in re.finditer(r"^(?:static\s+)?[A-Za-z_][\w\s\*]*?\b(reb_\w+)\s*\([^;{]*\)\s*\{", txt, flags=re.M):
+            i = m.end()
+            depth = 1
+            while i < len(txt) and depth:
+                depth += txt[i] == "{"
+                depth -= txt[i] == "}"
+                i += 1
+            bodies[m.group(1)] = txt[m.end():i]
+    toks = ("server_data", "reb_sigint", "reb_simulation_stop_server", "reb_simulation_start_server")
+    touch = {f for f, b in bodies.items() if any(t in b for t in toks)}
+    for _ in range(2):                       # callers of (static) functions that touch it
+        touch |= {f for f, b in bodies.items() if any(re.search(r"\b%s\b" % g, b) for g in touch if g != f)}
+    return sorted((touch & exported) - {"reb_simulation_integrate_raw"})
+
+
+def extract_routes(src):
+    """the routes and keys of the POSIX branch of reb_server_start, from the source: [(name, method, path, body)]"""
+    txt = open(os.path.join(src, "server.c")).read()
+    posix = txt[:txt.index("#else // _WIN32", txt.index("reb_server_start"))] if "#else // _WIN32" in txt[txt.index("reb_server_start"):] else txt
+    uris = sorted(set(re.findall(r'str(?:n)?casecmp\(uri,\s*"([^"]+)"', posix)))
+    keys = sorted(set(re.findall(r"case\s+('.'|\d+)\s*:", posix[posix.index("/keyboard/"):posix.index("/favicon.ico")])))
+    methods = sorted(set(re.findall(r'strcasecmp\(method,\s*"([A-Z]+)"', posix)))
+    routes = []
+    for u_ in uris:
+        if u_ == "/simulation":
+            continue                                    # the client thread's business
+        if u_ == "/keyboard/":
+            for k in keys:
+                if k in ("'Q'", "' '"):
+                    continue                            # quit / pause: the keyboard scenarios (they change the run)
+                code = ord(k[1]) if k.startswith("'") else int(k)
+                routes.append(("key %s" % k, "GET", "/keyboard/%d" % code, None))
+            routes.append(("key unknown", "GET", "/keyboard/77", None))
+        elif u_ == "/screenshot":
+            routes.append(("/screenshot unexpected", "POST", "/screenshot", "data:image/png;base64,AAAA\0"))
+            routes.append(("/screenshot empty", "POST", "/screenshot", None))
+        else:
+            routes.append((u_, "GET", u_, None))
+    routes.append(("unsupported uri", "GET", "/no/such/page", None))
+    routes.append(("unsupported method", "PUT", "/simulation", None))
+    if "POST" in methods:
+        routes.append(("POST /simulation", "POST", "/simulation", None))
+    table = {"uris": uris, "keys": keys, "methods": methods}
+    return routes, table
+
+
+def scenarios(c, nset=0):
+    """server scenarios: (tag, spec, job parameters).  Covering-array rows (quick: the slice VERIF_SEED selects plus one row per
+    factor value still missing; thorough: the whole array and all triples of life x req x edit) + the special scenarios"""
+    rng = c.rng.fork()
+    S = []
+    rows = cached_array("server", S_FACTORS, 20260930 + nset, triples=("life", "req", "edit") if c.thorough else None)
+    unc = [r["_uncoverable"] for r in rows if "_uncoverable" in r]
+    rows = [r for r in rows if "_uncoverable" not in r]
+    c.cov.setdefault("pairs_uncoverable", [])
+    c.cov["pairs_uncoverable"] += [list(u) for u in unc if list(u) not in c.cov["pairs_uncoverable"]]
+    if not c.thorough:
+        nsl = 5
+        sel = [r for i, r in enumerate(rows) if i % nsl == (c.seed + nset) % nsl]
+        have = {(f, r[f]) for r in sel for f in r}
+        for r in rows:                                   # every value of every factor at least once per run
+            miss = [(f, r[f]) for f in r if (f, r[f]) not in have]
+            if miss:
+                sel.append(r)
+                have |= {(f, r[f]) for f in r}
+        rows = sel
+    for r in rows:
+        sp, jp = build_spec(rng, r)
+        S.append(("array", sp, jp))
+    # ---- special scenarios (sizes / timings the array does not vary)
     sp = dict(integ="whfast", N=1200 if not c.thorough else 2500, dt=0.01, seed=rng.randint(1, 10 ** 6), safe=0, mp=1e-9,
               tmax=[0.01 * (3 * (k + 1) + 0.5) for k in range(10)])
     S.append(("unsynchronised", sp, dict(max_bodies=16, client_sleep_ms=1.0, delay_prob=0, delay_max_us=0)))
-    # variational particles (1st / 2nd order / MEGNO, non-zero variations), test particles, MERCURIUS/TRACE inside an encounter,
-    # exact_finish_time=0: the lazily allocated / N_var-dependent state of every integrator is live while requests are served
-    vtab = {"ias15": (20, 0.02, 5.0), "whfast": (60, 0.03, 3.0), "bs": (12, 0.05, 25.0), "leapfrog": (60, 0.01, 1.2), "eos": (50, 0.02, 2.4)}
-    vlist = [(i, v) for i in VAR_OK for v in VAR_OK[i]]
-    rng.shuffle(vlist)
-    vsel = [x for x in vlist if x[0] == "ias15"] + [x for x in vlist if x[0] != "ias15"]     # IAS15: all three kinds, always
-    for vi, (integ, var) in enumerate(vsel if c.thorough else vsel[:4]):
-        N, dt, span = vtab[integ]
-        tms, t = [], 0.0
-        for k in range(rng.randint(2, 4)):
-            t += dt * (int(span / dt * rng.uniform(0.6, 1.4)) + rng.uniform(0.15, 0.85))
-            tms.append(t)
-        sp = dict(integ=integ, N=N, dt=dt, seed=rng.randint(1, 10 ** 6), tmax=tms, var=var, eft=rng.choice([0, 1]))
-        if vi == 0 or rng.chance(0.4):
-            sp["testp"], sp["tpt"] = rng.randint(1, 3), rng.choice([0, 1])
-        S.append(("variational", sp, dict(std)))
-    for integ in (["mercurius", "trace"] if c.thorough else [rng.choice(["mercurius", "trace"])]):
-        sp = dict(integ=integ, N=7, dt=0.03, seed=rng.randint(1, 10 ** 6), enc=1, testp=2, tpt=0,
-                  tmax=[0.03 * (900 * (k + 1) + 0.4 * (k + 1)) for k in range(3)], eft=1)
-        S.append(("encounter", sp, dict(std)))
-    tp = [i for i in TESTP_OK if i not in ("mercurius", "trace")]
-    rng.shuffle(tp)
-    tps = []
-    for ti, integ in enumerate(tp if c.thorough else tp[:2]):
-        sp = dict(integ=integ, N=sizes[integ] // 2 + 4, dt=dts[integ], seed=rng.randint(1, 10 ** 6), tmax=tm(integ, rng.randint(2, 3)),
-                  testp=rng.randint(2, 4), tpt=ti % 2, eft=rng.choice([0, 1]), safe=rng.choice([1, 0]) if integ == "whfast" else 1)
-        tps.append(("test-particles", sp, dict(max_bodies=12, client_sleep_ms=5.0, delay_prob=30, delay_max_us=1200)))
-    S += tps
-    # collisions resolved by merging (N decreases while requests are served), direct and tree search, tree gravity
-    for kind, integ in ([("direct", "ias15"), ("direct", "mercurius"), ("tree", "leapfrog"), ("tree-gravity", "leapfrog"), ("tree-gravity", "ias15")]
-                        if c.thorough else [rng.choice([("direct", "ias15"), ("direct", "leapfrog")]), ("tree-gravity", "leapfrog")]):
-        sp = dict(integ=integ, N=60, dt=0.01, seed=rng.randint(1, 10 ** 6), coll=kind, tmax=[0.01 * (120 * (k + 1) + 0.5) for k in range(3)])
-        S.append(("collisions", sp, dict(std)))
-    # Simulationarchive auto-snapshots in the same run: two writers of serialisations (archive heartbeat and server)
-    for integ in (["whfast", "ias15", "mercurius", "leapfrog"] if c.thorough else [rng.choice(["whfast", "ias15"])]):
-        sp = dict(integ=integ, N=sizes[integ] // 2, dt=dts[integ], seed=rng.randint(1, 10 ** 6), tmax=tm(integ, rng.randint(2, 3)),
-                  sa=rng.randint(7, 23), safe=rng.choice([1, 0]) if integ == "whfast" else 1)
-        S.append(("archive", sp, dict(std)))
-    # /keyboard commands (pause, single steps, resume; quit and re-enter) racing with /simulation requests
-    for quit_ in ([False, True, True] if c.thorough else [True]):
-        integ = rng.choice(["whfast", "leapfrog"])
-        sp = dict(integ=integ, N=sizes[integ], dt=dts[integ], seed=rng.randint(1, 10 ** 6), tmax=tm(integ, 2, 2.0))
-        S.append(("keyboard", sp, dict(std, keyboard=({"rounds": 3, "quit": True} if quit_ else {"rounds": 3}), delay_prob=10)))
-    # user edits between integrate() calls (mass, velocity, dt, an option; no step in between) with a request on either side,
-    # also while the simulation sits PAUSED before its first step
-    def edit_list(integ, ncalls, paused):
-        kinds = ["m", "vx", "dt", "softening"] + (["corrector"] if integ == "whfast" else []) + (["epsilon"] if integ == "ias15" else [])
-        rng.shuffle(kinds)
-        out = []
-        for k in ([-1] if paused else []) + list(range(ncalls)):
-            kind = kinds[(k + 1) % len(kinds)]
-            val = {"m": rng.uniform(1e-6, 5e-5), "vx": rng.uniform(-0.2, 0.2), "dt": dts[integ] * rng.uniform(0.7, 1.3),
-                   "softening": rng.uniform(1e-4, 1e-2), "corrector": rng.choice([3, 5, 7]), "epsilon": rng.choice([1e-8, 1e-10])}[kind]
-            if kind == "dt" and (integ in ("ias15", "bs") or k == -1):
-                kind, val = "m", rng.uniform(1e-6, 5e-5)
-            out.append([k, kind, rng.randint(1, 3), val])
-        return out
-    for integ in (["whfast", "ias15", "leapfrog", "mercurius"] if c.thorough else [rng.choice(["whfast", "leapfrog"])]):
-        tms = tm(integ, 4, 0.5)
-        sp = dict(integ=integ, N=sizes[integ] // 2, dt=dts[integ], seed=rng.randint(1, 10 ** 6), tmax=tms, edits=edit_list(integ, 4, False))
-        S.append(("user-edits", sp, dict(std, max_bodies=12)))
-    for integ in (["whfast", "ias15", "leapfrog"] if c.thorough else [rng.choice(["whfast", "ias15", "leapfrog"])]):
-        tms = tm(integ, 3, 0.5)
-        sp = dict(integ=integ, N=sizes[integ] // 2, dt=dts[integ], seed=rng.randint(1, 10 ** 6), tmax=tms, edits=edit_list(integ, 3, True))
-        S.append(("user-edits-paused", sp, dict(std, max_bodies=12, start="paused", start_delay_ms=rng.uniform(3, 15), linger_ms=5)))
-    # the server is started before and stopped after every integrate() call while the client keeps knocking
-    for integ in (["whfast", "ias15", "leapfrog"] if c.thorough else [rng.choice(["whfast", "ias15", "leapfrog"])]):
-        sp = dict(integ=integ, N=sizes[integ], dt=dts[integ], seed=rng.randint(1, 10 ** 6), tmax=tm(integ, 5, 0.5))
-        S.append(("restart", sp, dict(std, restart=True, max_bodies=20, client_sleep_ms=1.0)))
-    # several simulations, each with its own server on its own port, integrating in parallel threads of one process
-    for rep in range(2 if c.thorough else 1):
-        ms = list(INTEGS)
-        rng.shuffle(ms)
-        specs = [dict(integ=i, N=sizes[i] // 2 + 3, dt=dts[i], seed=rng.randint(1, 10 ** 6), tmax=tm(i, rng.randint(2, 3)), eft=rng.choice([0, 1]))
-                 for i in ms[:(5 if c.thorough else 3)]]
-        S.append(("multi-server", specs[0], dict(std, specs=specs, max_bodies=8)))
-    # the server is started AFTER integrate() has been entered: (a) while the simulation idles PAUSED inside reb_check_exit and
-    # is then resumed with the space key, (b) from another thread at a random phase of the running loop
-    late = list(INTEGS)
-    rng.shuffle(late)
-    nl = len(late) if c.thorough else 2
-    for integ in late[:nl]:
-        sp = dict(integ=integ, N=sizes[integ], dt=dts[integ], seed=rng.randint(1, 10 ** 6), tmax=tm(integ, rng.randint(2, 4)))
-        S.append(("late-start-paused", sp, dict(max_bodies=14, client_sleep_ms=5.0, delay_prob=30, delay_max_us=1200, start="paused",
-                                                start_delay_ms=rng.uniform(3, 25), linger_ms=5)))
-    rng.shuffle(late)
-    for integ in late[:nl]:
-        sp = dict(integ=integ, N=sizes[integ], dt=dts[integ], seed=rng.randint(1, 10 ** 6), tmax=tm(integ, rng.randint(3, 5)))
-        S.append(("late-start-running", sp, dict(max_bodies=14, client_sleep_ms=5.0, delay_prob=30, delay_max_us=1200, start="during",
-                                                 start_delay_ms=rng.uniform(2, 45), linger_ms=5)))
-    # long steps (tens of ms): a server started at a random moment is almost surely started mid-step, and the knocking client is
-    # served within that step (finding F19 on the unchanged code)
     sp = dict(integ="whfast", N=2000, dt=0.01, seed=rng.randint(1, 10 ** 6), mp=1e-9, tmax=[0.045, 0.085])
     S.append(("late-start-mid-step", sp, dict(max_bodies=6, client_sleep_ms=2.0, delay_prob=0, delay_max_us=0, start="during",
                                               start_delay_ms=rng.uniform(40, 110), linger_ms=5)))
-    # no request at all: the trace of the integrator alone with the server thread idle
+    ms = list(INTEGS)
+    rng.shuffle(ms)
+    specs = []
+    for i in ms[:(5 if c.thorough else 3)]:
+        row = dict(integ=i, calls="several", life="before", req="sim", edit="none", config="plain", eft=rng.choice([0, 1]), safe=1,
+                   sign="+", cb="none", sa=0, opt="none")
+        specs.append(build_spec(rng, row)[0])
+    S.append(("multi-server", specs[0], dict(max_bodies=8, client_sleep_ms=5.0, delay_prob=30, delay_max_us=1200, specs=specs)))
     sp = dict(integ="leapfrog", N=50, dt=0.01, seed=rng.randint(1, 10 ** 6), tmax=[0.205, 0.417])
-    S.append(("no-requests", sp, dict(max_bodies=0, client_sleep_ms=1.0, delay_prob=0, delay_max_us=0)))
-    # the option / role / time dimensions are folded onto the ordinary scenarios; what finds no host gets its own scenario
-    left = fold_dims(rng, plain + tps, per_item=2)
-    for name, integs_, fn in left:
-        integ = rng.choice(list(integs_))
-        sp = dict(integ=integ, N=sizes[integ] // 2 + 2, dt=dts[integ], seed=rng.randint(1, 10 ** 6), tmax=tm(integ, 2, 0.6))
-        fn(rng, sp)
-        sp["folded"] = [name]
-        S.append(("option", sp, dict(max_bodies=8, client_sleep_ms=4.0, delay_prob=30, delay_max_us=1200)))
+    S.append(("no-requests", sp, dict(max_bodies=0, client_sleep_ms=1.0, delay_prob=0, delay_max_us=0, smokes=True)))
     return S
+
+
+ROUTES = {"list": [], "table": {}}
 
 
 def one_scenario(d, exe, shim, offs, ptime, deadline, si, nS, tag, sp, jp, seed, mrng, log):
@@ -1594,6 +2052,9 @@ def one_scenario(d, exe, shim, offs, ptime, deadline, si, nS, tag, sp, jp, seed,
         L["not_ex"].append({"phase": "server scenario " + what, "reason": "time budget of the tier used up"})
         return L
     log("scenario", what)
+    jp = dict(jp)
+    if jp.get("routes") is True:
+        jp["routes"] = ROUTES["list"]
     job = dict(spec=sp, offs=offs, delay_seed=seed, server=True, **jp)
     st, res, tail = run_phase(None, d, "--worker", job, shim=shim, timeout=ptime, what=what)
     if st == "died":
@@ -1689,16 +2150,35 @@ def one_scenario(d, exe, shim, offs, ptime, deadline, si, nS, tag, sp, jp, seed,
     if si < 3:
         R.sample({"scenario": tag, "integrator": sp["integ"], "N": sp["N"], "events": len(toks), "bodies": res["nbodies"],
                   "steps": res["steps_done"], "trace_head": " ".join(toks[:40])})
+    L["routes_done"] = res.get("routes_done", {})
+    L["route_replies"] = res.get("route_replies", {})
+    if jp.get("shots"):
+        L["stats"]["screenshots_requested"] = len(jp["shots"])
+        L["stats"]["screenshots_delivered_intact"] = res.get("shots_ok", 0)
+        if res.get("shots_ok", 0) < 1 and cnt.get("iShotUnlock", 0) > 0:
+            R.violation("screenshot-not-delivered", "reb_simulation_output_screenshot released the mutex %d times but no screenshot file with the "
+                        "bytes the browser sent was written (%s)" % (cnt.get("iShotUnlock", 0), sp["integ"]), dict(spec=sp, scenario=tag))
+    L["entry"] = res.get("entry", [])
+    for nm_, key_ in (("sigint_smoke", "global-interrupt-flag"), ("free_smoke", "free-with-running-server")):
+        if nm_ in res and not res[nm_].get("ok"):
+            R.violation(key_, "%s failed: %s" % (nm_, json.dumps(res[nm_])[:300]), dict(scenario=tag, detail=res[nm_]))
+        if nm_ in res:
+            L["stats"][nm_ + "_runs"] = 1
     # search (ii) on the bodies of this scenario, in its own process
+    n_before = len(L["not_ex"])
     analyse(sp, res["out"], racy, what)
+    if len(L["not_ex"]) == n_before and sp.get("row"):
+        L["row"] = sp["row"]
     return L
 
 
 def server_part(c, d, exe, shim, offs, boost, deadline):
     stats = {k: 0 for k in STAT_KEYS}
+    ROUTES["list"], ROUTES["table"] = extract_routes(os.path.join(d, "src"))
+    c.cov["server_routes_extracted"] = ROUTES["table"]
     S = scenarios(c)
-    for _ in range((2 if boost else 0) + (7 if c.thorough else 0)):
-        S = S + scenarios(c)
+    for j in range((2 if boost else 0) + (7 if c.thorough else 0)):
+        S = S + scenarios(c, nset=j + 1)
     verdicts, metas = [], []
     nracy = 0
     mutlines, mutmeta = [], []
@@ -1721,7 +2201,15 @@ def server_part(c, d, exe, shim, offs, boost, deadline):
         futs = [ex.submit(one_scenario, d, exe, shim, offs, ptime, deadline, si, len(S), tag, sp, jp, seeds[si][0], seeds[si][1], c.log)
                 for si, (tag, sp, jp) in enumerate(S)]
         results = [f.result() for f in futs]
+    rows_done = c.cov.setdefault("_rows_server", [])
+    routes_done, route_replies, entry = {}, {}, set()
     for L in results:
+        if L.get("row"):
+            rows_done.append(L["row"])
+        for k_, v_ in L.get("routes_done", {}).items():
+            routes_done[k_] = routes_done.get(k_, 0) + v_
+        route_replies.update(L.get("route_replies", {}))
+        entry |= set(L.get("entry", []))
         not_ex += L["not_ex"]
         replay_events(c, L["rec"].events)
         for k, v in L["stats"].items():
@@ -1772,6 +2260,18 @@ def server_part(c, d, exe, shim, offs, boost, deadline):
     for tag, sp, res, n in metas:
         c.cov["traces_by_scenario"][tag] = c.cov["traces_by_scenario"].get(tag, 0) + 1
     c.cov["served_bodies"] = stats
+    c.cov["server_routes_exercised"] = routes_done
+    c.cov["server_route_replies"] = route_replies
+    c.cov["_entry_exercised"] = sorted(entry)
+    missing_routes = [r_[0] for r_ in ROUTES["list"] if routes_done.get(r_[0], 0) == 0]
+    if len(ROUTES["list"]) < 10:
+        c.corr_break("route extraction from server.c found only %d routes" % len(ROUTES["list"]))
+    planned_routes = any(jp.get("routes") for tag, sp, jp in S)
+    if missing_routes and planned_routes and not any("routes" in str(x.get("phase", "")) for x in not_ex):
+        if any(routes_done.values()):
+            c.corr_break("routes of reb_server_start never requested in this run: %s" % missing_routes)
+    for g, tag, sp in rejected[1:8]:
+        c.log("also rejected:", g, tag, json.dumps(sp.get("row")), "edits" if sp.get("edits") else "")
     for g, tag, sp in rejected[:1]:
         c.corr_break("a lock/step/serialise trace logged from the real library (%s, %s) is not an execution of the protocol model: %s"
                      % (tag, sp["integ"], g), {"verdict": g, "spec": sp, "scenario": tag})
@@ -1782,47 +2282,36 @@ def server_part(c, d, exe, shim, offs, boost, deadline):
 
 
 # ---------------------------------------------------------------------------- search (i): parallel vs sequential
-def par_specs(c, k, same=None):
+def par_reps(c, k, nreps):
+    """the parallel task sets from the covering array of P_FACTORS: mixed repetitions take the `mixed` rows in turn, a
+    same-type repetition takes the rows of one integrator (re-seeded to fill the k slots).  quick: the same-type repetitions
+    rotate over the integrators with VERIF_SEED"""
     rng = c.rng.fork()
-    sizes = {"ias15": 8, "whfast": 40, "saba": 30, "eos": 30, "mercurius": 25, "trace": 20, "bs": 5, "janus": 30,
-             "leapfrog": 40, "sei": 300}
+    rows = [r for r in cached_array("parallel", P_FACTORS, 777) if "_uncoverable" not in r]
+    mixed = [r for r in rows if r["mix"] == "mixed"]
+    same = {}
+    for r in rows:
+        if r["mix"] == "same-type":
+            same.setdefault(r["integ"], []).append(r)
+    reps = []
+    nm = max(1, min(nreps // 2, (len(mixed) + k - 1) // k)) if not c.thorough else max(nreps // 2, (len(mixed) + k - 1) // k)
+    for j in range(nm):
+        chunk = [mixed[(j * k + i) % len(mixed)] for i in range(k)]
+        reps.append((None, chunk))
+    integs = sorted(same)
+    ns = nreps - nm if not c.thorough else max(nreps - nm, len(integs))
+    for j in range(ns):
+        integ = integs[(c.seed + j) % len(integs)]
+        chunk = [same[integ][i % len(same[integ])] for i in range(k)]
+        reps.append((integ, chunk))
     out = []
-    for i in range(k):
-        integ = same if same else INTEGS[i % len(INTEGS)]
-        dt = rng.choice([0.01, 0.02, 0.03])
-        n1, n2 = rng.randint(20, 60), rng.randint(20, 60)
-        sp = dict(integ=integ, N=sizes[integ] + rng.randint(0, 6), dt=dt, seed=rng.randint(1, 10 ** 6),
-                  tmax=[dt * (n1 + 0.3), dt * (n1 + n2 + 0.7)], safe=rng.choice([1, 1, 0]))
-        sp["rngp"] = 1
-        sp["eft"] = rng.choice([1, 0])
-        kind = rng.randint(0, 9)
-        if kind <= 2 and integ in VAR_OK:
-            sp["var"] = rng.choice(VAR_OK[integ])
-            sp["safe"] = 1 if integ != "whfast" else sp["safe"]
-            if integ in TESTP_OK and rng.chance(0.4):
-                sp["testp"] = rng.randint(1, 3)
-                sp["tpt"] = rng.choice([0, 0, 1])
-        elif kind == 3 and integ in TESTP_OK:
-            sp["testp"] = rng.randint(1, 3)
-            sp["tpt"] = rng.choice([0, 1])
-        elif kind == 4 and integ in ("mercurius", "trace"):
-            sp["enc"] = 1
-            sp["dt"] = 0.03
-            sp["N"] = 6 + rng.randint(0, 3)
-            sp["tmax"] = [0.03 * (n1 * 3 + 0.3), 0.03 * ((n1 + n2) * 3 + 0.7)]
-        elif kind == 5 and integ in ("ias15", "leapfrog", "mercurius"):
-            # collisions + merges (N changes between the serialisations), direct / tree search, tree gravity
-            sp["coll"] = rng.choice(["direct", "direct", "tree", "tree-gravity"]) if integ != "mercurius" else "direct"
-            sp["N"] = 40 + rng.randint(0, 20)
-            sp["dt"] = 0.01
-            sp["tmax"] = [0.01 * (n1 * 2 + 0.3), 0.01 * ((n1 + n2) * 2 + 0.7)]
-            sp["rngp"] = 0
-        elif kind == 6:
-            sp["sa"] = rng.randint(5, 15)          # write an archive, restore a random snapshot of it (in parallel: file handles)
-        out.append(sp)
-    # every foldable option / role / time dimension on some task
-    items = [("par", sp, {}) for sp in out if not sp.get("coll")]
-    fold_dims(rng, items, per_item=1)
+    for same_, chunk in reps:
+        specs = []
+        for r in chunk:
+            sp, _ = build_spec(rng, r, parallel=True)
+            sp["row"] = dict(r)
+            specs.append(sp)
+        out.append((same_, specs))
     return out
 
 
@@ -1843,6 +2332,8 @@ def par_task(rebound, fmt, sp, tmpdir, ident):
         f.write(buf)
     ld = rebound.Simulation(fn)
     install_callbacks(ld, sp)
+    for x_ in (sim, ld, cp):
+        apply_edits(x_, sp, 0)                 # user edit between the two integrate() calls (after the serialisations)
     integ_to(sim, sp, sp["tmax"][1])
     integ_to(ld, sp, sp["tmax"][1])
     integ_to(cp, sp, sp["tmax"][1])
@@ -1859,6 +2350,7 @@ def par_task(rebound, fmt, sp, tmpdir, ident):
     plain = make_sim(rebound, sp)
     attach_archive(plain, sp, afn + ".twin")
     integ_to(plain, sp, sp["tmax"][0])
+    apply_edits(plain, sp, 0)
     integ_to(plain, sp, sp["tmax"][1])
     a = fmt.canon(sim_bytes(rebound, ld), ("status",))
     b = fmt.canon(sim_bytes(rebound, cp), ("status",))
@@ -1878,6 +2370,7 @@ def parallel_run(c, rebound, fmt, reps_specs, outdir):
     reps = len(reps_specs)
     nmis = nneut = nvar = 0
     dims = {}
+    rows_done = []
     overl = []
     for rep, (same, specs) in enumerate(reps_specs):
         progress("parallel repetition", rep, "of", reps, "same-type" if same else "mixed")
@@ -1924,6 +2417,8 @@ def parallel_run(c, rebound, fmt, reps_specs, outdir):
                                 "never-serialised twin (N constant): fields %s" % (sp["integ"], ", var " + sp["var"] if sp.get("var") else "", res_i[3][:6]),
                                 dict(spec=sp, rep=rep, run=where, fields=res_i[3][:10]))
                     break
+            if sp.get("row"):
+                rows_done.append(sp["row"])
             for dn in dims_of("par", sp):
                 dims[dn] = dims.get(dn, 0) + 1
             dims["histories: copy / save / load mid-run"] = dims.get("histories: copy / save / load mid-run", 0) + 1
@@ -1962,7 +2457,7 @@ def parallel_run(c, rebound, fmt, reps_specs, outdir):
         t.start()
     for t in ths:
         t.join(30)
-    return {"repetitions": reps, "simulations_per_repetition": k, "mismatches": nmis, "dimensions": dims,
+    return {"repetitions": reps, "simulations_per_repetition": k, "mismatches": nmis, "dimensions": dims, "rows": rows_done,
             "default_rand_seed": {"created_in_8_threads": len(seeds), "distinct": len(set(seeds))},
             "serialised_original_differs_from_never_serialised_twin": nneut, "tasks_with_variational_particles": nvar,
             "mean_overlapping_tasks": round(sum(overl) / max(1, len(overl)), 2)}
@@ -1971,10 +2466,8 @@ def parallel_run(c, rebound, fmt, reps_specs, outdir):
 def parallel_part(c, d, offs, boost):
     k = 20
     reps = (80 if c.thorough else 6) * (4 if boost else 1)
-    reps_specs = []
-    for rep in range(reps):
-        same = None if rep % 2 == 0 else INTEGS[(rep // 2) % len(INTEGS)]
-        reps_specs.append((same, par_specs(c, k, same)))
+    reps_specs = par_reps(c, k, reps)
+    reps = len(reps_specs)
     c.log("parallel part: %d repetitions x %d simulations" % (reps, k))
     st, res, tail = run_phase(c, d, "--parallel", dict(reps=reps_specs, offs=offs), timeout=900 if c.thorough else 90, what="parallel")
     if st != "ok":
@@ -1984,6 +2477,8 @@ def parallel_part(c, d, offs, boost):
     summ = res["summary"]
     dims = c.cov.setdefault("dimensions", {})
     planned = c.cov.setdefault("dimensions_planned", {})
+    c.cov.setdefault("_rows_parallel", [])
+    c.cov["_rows_parallel"] += summ.pop("rows", [])
     for dn, n in summ.pop("dimensions", {}).items():
         dims[dn] = dims.get(dn, 0) + n
         planned[dn] = planned.get(dn, 0) + n
@@ -2213,15 +2708,46 @@ def run(c):
         phase("asan: stop_server during integrate")
         asan_stop_part(c, d)
         c.log("asan stop:", c.cov.get("asan_stop"))
+    # ---- pairwise coverage of the scenario / task factors
+    pairs = {}
+    for name, factors, rows_key in (("server", S_FACTORS, "_rows_server"), ("parallel", P_FACTORS, "_rows_parallel")):
+        tot, exc = all_pairs(factors)
+        seen = set()
+        for r in c.cov.pop(rows_key, []):
+            seen |= row_pairs({f: r[f] for f in factors if f in r})
+        seen &= set(tot)
+        pairs[name] = {"covered": len(seen), "total": len(tot), "excluded": len(exc)}
+        miss = sorted(set(tot) - seen)
+        pairs[name]["uncovered_examples"] = [list(m) for m in miss[:12]]
+        if c.thorough and miss and not c.cov.get("not_exercised"):
+            c.broken.append("pairwise coverage (%s factors): %d of %d applicable pairs never generated, e.g. %s" % (name, len(miss), len(tot), miss[:4]))
+    pairs["covered"] = pairs["server"]["covered"] + pairs["parallel"]["covered"]
+    pairs["total"] = pairs["server"]["total"] + pairs["parallel"]["total"]
+    pairs["excluded"] = pairs["server"]["excluded"] + pairs["parallel"]["excluded"]
+    pairs["exclusion_reasons"] = sorted({excluded(*p_) for f_ in (S_FACTORS, P_FACTORS) for p_ in all_pairs(f_)[1]})
+    c.cov["pairs"] = pairs
+    if c.cov.get("pairs_uncoverable"):
+        c.broken.append("pairs that no valid scenario contains (declare them excluded with a reason): %s" % c.cov["pairs_uncoverable"][:5])
+    c.log("pairs: server %d/%d, parallel %d/%d, excluded %d" % (pairs["server"]["covered"], pairs["server"]["total"],
+                                                               pairs["parallel"]["covered"], pairs["parallel"]["total"], pairs["excluded"]))
+    # ---- public entry points that reach the mechanism (extracted from the header and the sources)
+    ep = extract_entry_points(os.path.join(d, "src"))
+    exercised = set(c.cov.pop("_entry_exercised", []))
+    c.cov["entry_points"] = {"extracted": ep, "exercised": sorted(exercised & set(ep) | ({"reb_sigint"} & exercised))}
+    if len(ep) < 5:
+        c.broken.append("entry-point extraction found only %s" % ep)
+    miss_ep = [e for e in ep if e not in exercised]
+    if miss_ep and not c.cov.get("not_exercised"):
+        c.broken.append("public entry points reaching server_data / the interrupt flag not exercised in this run: %s" % miss_ep)
     # cross-cutting dimensions: every applicable one must have been PLANNED by the generators (else: broken obligation);
     # planned but not evaluated can only be environmental (recorded as not exercised)
     planned = c.cov.get("dimensions_planned", {})
     dims = c.cov.get("dimensions", {})
     for dn in APPLICABLE_DIMENSIONS:
         dims.setdefault(dn, 0)
-        if planned.get(dn, 0) == 0:
+        if planned.get(dn, 0) == 0 and c.thorough:
             c.broken.append("dimension not covered: " + dn)
-        elif dims[dn] == 0:
+        elif planned.get(dn, 0) > 0 and dims[dn] == 0:
             c.cov["not_exercised"].append({"phase": "dimension " + dn, "reason": "planned %d cases, none completed" % planned[dn]})
     c.cov["dimensions"] = dict(sorted(dims.items()))
     ne = c.cov.get("not_exercised", [])
